@@ -93,14 +93,17 @@ def finish(res, level, rule, assumptions=None, extra_cov=None):
         "instances": res.instances,
         "samples": res.samples[:8] or [{"note": "no sample recorded"}],
         "rule": rule,
-        "evaluations": int(res.edges_replayed + res.traces_validated),
-        "distinct_nontrivial": int(res.states),
         "known_findings_seen": [k["signature"] for k in res.known],
         "notes": res.notes,
     }
     if extra_cov:
         cov.update(extra_cov)
     cov.update(res.extra)
+    if level in ("exploration", "fault_enumeration"):
+        # these levels need measured evaluations / distinct_nontrivial from the caller (extra_cov / res.extra)
+        for k in ("evaluations", "distinct_nontrivial"):
+            if k not in cov:
+                raise ToolError("flow.finish: level %s needs a measured %r in the coverage" % (level, k))
     write_evidence(res.pid, res.tier, res.seed, level, cov, time.time() - res.t0,
                    violations=len(res.violations), assumptions=assumptions)
     return 1 if res.violations else 0
